@@ -4,4 +4,5 @@ import LasModel.Gen.Funs
 import LasModel.Lemmas.Bits
 import LasModel.Audit.C20
 import LasModel.Audit.C09
+import LasModel.Audit.C10
 import LasModel.Driver.Main
